@@ -10,7 +10,8 @@ package xrespondent
 //@   immutable: closeQ
 //@   invariant 1 <= ttl && ttl <= 255
 //@   invariant sendQLen >= 0
-//@   elem_invariant recvQ: !shared(elem)
+//@   never_closed: recvQ
+//@   elem_invariant recvQ: elem != nil && !shared(elem)
 //@
 //@ struct pipe
 //@   immutable: p s closeQ sendQ
@@ -73,3 +74,7 @@ package xrespondent
 //@
 //@ func (*pipe).receiver
 //@   before call:close#1 assert m == nil || selidx == 2
+//@
+//@ func (*socket).OpenContext
+//@   modifies none
+//@   ensures isnil(result0) && result1 == protocol.ErrProtoOp
